@@ -67,7 +67,19 @@ DecLine(r) ==
              IN \A i \in 1 .. Len(r.o) : ObsOk(r.o[i], d.frame, e, eq)
         ELSE \A i \in 1 .. Len(r.o) : r.o[i].r = "err"
 
+(* A frame the public constructors accept but the layout of PROTOCOL.md cannot carry: a Datagram whose host is longer than the one
+   octet of its length field can say.  "Every frame that can be built through the public constructors encodes to exactly the
+   layout ... and decoding those bytes yields an equal frame": no octet string does that, so every encoding must be refused
+   (a panic is the refusal the encoder has); octets that say something else are a violation. *)
+EncXLine(r) ==
+  LET f == FromJ(r.f)
+  IN /\ f.op = "dgram" /\ Len(f.host) > 255
+     /\ r.nv > 0 /\ Len(r.out) > 0
+     /\ \A i \in 1 .. Len(r.out) : r.out[i].p
+     /\ Len(r.back) = 0
+
 LineOk(r) == CASE r.k = "enc" -> EncLine(r)
+               [] r.k = "encx" -> EncXLine(r)
                [] r.k = "dec" -> DecLine(r)
                [] OTHER -> FALSE
 
@@ -76,6 +88,7 @@ JF(f) == [op |-> f.op, id |-> f.id, n |-> f.n, port |-> f.port, bt |-> f.bt,
           host |-> Compress(f.host), data |-> Compress(f.data)]
 Expected(r) ==
   CASE r.k = "enc" -> [k |-> "enc", frame |-> IsFrame(FromJ(r.f)), bytes |-> Compress(Encode(FromJ(r.f)))]
+    [] r.k = "encx" -> [k |-> "encx", demand |-> "a Datagram host of more than 255 octets cannot be laid out: every encoding must be refused"]
     [] r.k = "dec" -> LET d == Decode(Expand(r.b)) IN
                       IF d.ok THEN [k |-> "dec", ok |-> TRUE, f |-> JF(d.frame), re |-> Compress(Encode(d.frame)),
                                     eq |-> r.hp /\ d.frame = FromJ(r.p)]
